@@ -1,9 +1,175 @@
 import ALV.Common.Json
+import ALV.Model.C19
+import ALV.Spec.C19
 namespace ALV.Driver.C19
-open ALV ALV.J
+open ALV ALV.J ALV.C19
 
-/-- stub: the C19 slice is not built yet -/
-def handle (entry : String) (_j : Json) : Except String Json :=
-  throw s!"C19: unknown entry {entry}"
+/-- `{"num": x}` or `{"strm": [..]}` -/
+def getArg (j : Json) : Except String (Arg Rat) :=
+  match j.getObjVal? "num" with
+  | some v => do pure (.num (← getRat v))
+  | none =>
+    match j.getObjVal? "strm" with
+    | some v => do pure (.strm (← getList getRat v))
+    | none => throw "argument must be {num} or {strm}"
+
+def allEq : List Rat → Option Rat
+  | [] => none
+  | x :: xs => if xs.all (· == x) then some x else none
+
+def exceptJson (r : Except String (List Rat)) : Json :=
+  match r with
+  | .ok xs => Json.mkObj [("out", rats xs)]
+  | .error e => Json.mkObj [("err", Json.str e)]
+
+def optRat (j : Json) (k : String) : Except String (Option Rat) :=
+  match optField j k with
+  | none => pure none
+  | some v => do pure (some (← getRat v))
+
+def handle (entry : String) (j : Json) : Except String Json := do
+  match entry with
+  | "modulo_counter" =>
+    let a ← getArg (← field j "start")
+    let m ← getArg (← field j "modulo")
+    let s ← getArg (← field j "step")
+    let n ← getNat (← field j "n")
+    let model := moduloCounter a m s n
+    let ps := a.expand n
+    let ms := m.expand n
+    let ss := s.expand n
+    let rec_ := mcRec ps ms ss
+    let len := min ps.length (min ms.length ss.length)
+    -- closed layer only where the property states it: constant modulo
+    let closed : Json := match allEq (ms.take len) with
+      | some m0 => rats (mcClosed m0 (ps.take len) (ss.take len))
+      | none => Json.null
+    let zeroAt := mcZeroAt a m s n
+    pure <| Json.mkObj [
+      ("model", rats model), ("rec", rats rec_), ("closed", closed),
+      ("zero_at", optJson natToJson zeroAt),
+      ("branch", Json.str (mcBranch a m s))]
+  | "line" =>
+    let dur ← getRat (← field j "dur")
+    let b ← getRat (← field j "begin")
+    let e ← getRat (← field j "end")
+    let fin ← getBool (← field j "finish")
+    pure <| Json.mkObj [("model", exceptJson (line dur b e fin)), ("spec", rats (lineSpec dur b e fin))]
+  | "fadein" =>
+    let dur ← getRat (← field j "dur")
+    pure <| Json.mkObj [("model", exceptJson (fadein dur)), ("spec", rats (lineSpec dur 0 1 false))]
+  | "fadeout" =>
+    let dur ← getRat (← field j "dur")
+    pure <| Json.mkObj [("model", exceptJson (fadeout dur)), ("spec", rats (lineSpec dur 1 0 false))]
+  | "const" =>
+    let v ← getRat (← field j "v")
+    let dur ← optRat j "dur"
+    let n ← getNat (← field j "n")
+    pure <| Json.mkObj [("model", rats (constGen v dur n)), ("spec", rats (constSpec v dur n))]
+  | "impulse" =>
+    let dur ← optRat j "dur"
+    let n ← getNat (← field j "n")
+    let one := fieldD j "one" (Json.int 1)
+    let zero := fieldD j "zero" (Json.int 0)
+    pure <| Json.mkObj [("model", arr id (impulse dur one zero n)),
+                        ("spec", arr id (impulseSpec dur one zero n))]
+  | "adsr" =>
+    let dur ← getRat (← field j "dur")
+    let a ← getRat (← field j "a")
+    let d ← getRat (← field j "d")
+    let s ← getRat (← field j "s")
+    let r ← getRat (← field j "r")
+    pure <| Json.mkObj [("model", exceptJson (adsr dur a d s r)), ("spec", rats (adsrSpec dur a d s r))]
+  | "attack" =>
+    let a ← getRat (← field j "a")
+    let d ← getRat (← field j "d")
+    let s ← getArg (← field j "s")
+    let n ← getNat (← field j "n")
+    let spec : Json := match s with
+      | .num x => rats (attackSpec a d x (List.replicate n x) n)
+      | .strm (x :: xs) => rats (attackSpec a d x xs n)
+      | .strm [] => Json.null
+    pure <| Json.mkObj [("model", exceptJson (attack a d s n)), ("spec", spec)]
+  | "noise" =>
+    let dur ← optRat j "dur"
+    let n ← getNat (← field j "n")
+    let specLen : Nat := match dur with
+      | none => n
+      | some d => min n (durLen d)
+    pure <| Json.mkObj [("model", natToJson (noiseLen dur n)), ("spec", natToJson specLen)]
+  | "table_call" =>
+    let tbl ← getList getRat (← field j "table")
+    let den ← getRat (← field j "den")
+    let freq ← getArg (← field j "freq")
+    let phase ← getArg (← field j "phase")
+    let n ← getNat (← field j "n")
+    if tbl.isEmpty ∨ den = 0 then throw "table_call: empty table or zero den"
+    pure <| Json.mkObj [("model", arr (optJson ratToJson) (tableCall tbl den freq phase n)),
+                        ("spec", rats (tableSpec tbl den freq phase n))]
+  | "table_getitem" =>
+    let tbl ← getList getRat (← field j "table")
+    let idx ← getRat (← field j "idx")
+    if tbl.isEmpty then throw "table_getitem: empty table"
+    pure <| Json.mkObj [("model", optJson ratToJson (tableGetItem tbl idx)),
+                        ("spec", ratToJson (interpCyc tbl idx))]
+  | "table_op" =>
+    let t1 ← getList getRat (← field j "table")
+    let c1 ← getRat (← field j "cycles")
+    let kind ← getStr (← field j "kind")
+    let op : TOp ← match fieldD j "op" (Json.str "add") with
+      | Json.str "add" => pure TOp.add | Json.str "sub" => pure TOp.sub
+      | Json.str "mul" => pure TOp.mul | Json.str "div" => pure TOp.div
+      | _ => throw "bad op"
+    match kind with
+    | "binary" =>
+      let t2 ← getList getRat (← field j "table2")
+      let c2 ← getRat (← field j "cycles2")
+      pure <| Json.mkObj [("model", exceptJson (tblBinary op t1 c1 t2 c2))]
+    | "scalar" =>
+      let x ← getRat (← field j "x")
+      let refl ← getBool (← field j "reflected")
+      pure <| Json.mkObj [("model", Json.mkObj [("out", rats (tblScalar op t1 x refl))])]
+    | "neg" => pure <| Json.mkObj [("model", Json.mkObj [("out", rats (tblNeg t1))])]
+    | "normalize" => pure <| Json.mkObj [("model", exceptJson (tblNormalize t1))]
+    | "harmonize" =>
+      let hs ← getList (fun h => do
+        let p ← getNat (← field h "p")
+        let a ← getRat (← field h "a")
+        pure (p, a)) (← field j "harm")
+      let divisible := hs.all fun pa => t1.length % (pa.1 + 1) == 0
+      pure <| Json.mkObj [("model", Json.mkObj [("out", rats (tblHarmonize t1 hs))]),
+        ("spec", if divisible then rats (harmonizeSpec t1 hs) else Json.null)]
+    | _ => throw "bad kind"
+  | "sinusoid" =>
+    let twoPi ← getRat (← field j "two_pi")
+    let freq ← getArg (← field j "freq")
+    let phase ← getArg (← field j "phase")
+    let n ← getNat (← field j "n")
+    let sinF : Rat → Float := fun r => Float.sin (ratToFloat r)
+    pure <| Json.mkObj [("model", arr floatToJson (sinusoid sinF twoPi freq phase n)),
+                        ("spec", arr floatToJson (sinusoidSpec sinF freq phase n))]
+  | "karplus" =>
+    let alpha ← getRat (← field j "alpha")
+    let delay ← getRat (← field j "delay")
+    let memory ← getList getRat (← field j "memory")
+    let n ← getNat (← field j "n")
+    pure <| Json.mkObj [("model", rats (karplus alpha delay memory n)),
+                        ("spec", rats (karplusSpec alpha delay memory n))]
+  | "resample" =>
+    let sig ← getList getRat (← field j "sig")
+    let step ← getArg (← field j "step")
+    let order ← getNat (← field j "order")
+    let zero ← getRat (← field j "zero")
+    let n ← getNat (← field j "n")
+    let endStr : ResEnd → String := fun e => match e with
+      | .fuel => "fuel" | .input => "input" | .step => "step"
+    let model : Json := match resample sig step order zero n with
+      | .ok (xs, e) => Json.mkObj [("out", rats xs), ("end", Json.str (endStr e))]
+      | .error e => Json.mkObj [("err", Json.str e)]
+    let sp := resampleSpec sig step order zero n
+    pure <| Json.mkObj [("model", model),
+      ("spec", Json.mkObj [("out", rats sp.1), ("ended", Json.bool sp.2)]),
+      ("short", Json.bool (resShort sig order))]
+  | _ => throw s!"C19: unknown entry {entry}"
 
 end ALV.Driver.C19
